@@ -3,6 +3,7 @@ import Yuiv.Proofs.C18Orbit
 import Yuiv.Proofs.C18Check
 import Yuiv.Proofs.C18Closure
 import Yuiv.Proofs.C18Resolve
+import Yuiv.Proofs.C18Renumber
 /-
 C18 — link diagrams: components, signs, resolutions and braid closures.
 
@@ -127,6 +128,30 @@ example : Valid (fromPD [[4,2,5,1],[8,6,1,5],[6,3,7,4],[2,7,3,8]]) := by decide
 example : traverse (fromPD [[0,0,1,1]]) (0, 0) = .ok [(0,0),(0,3),(0,0)] := by decide
 /-- the bound is sharp for malformed codes: a label occurring three times makes the walk panic -/
 example : traverse (fromPD [[1,2,1,1]]) (0, 1) = .panic := by decide
+
+/-! ### G. edge renumbering (all links, valid or not)
+
+`renumber f l` renames every label by `f`; `Inj f`: `f` is injective. -/
+
+/-- the walks of a renumbered diagram are literally the same slot sequences -/
+theorem traverse_renumber_eq (f : Nat → Nat) (hf : Inj f) (l : Link) (s : Nat × Nat) (hs : s.1 < l.length) :
+    traverse (renumber f l) s = traverse l s := traverse_renumber f hf l s hs
+
+/-- components commute with renumbering (same order, same direction, labels renamed; same panics) -/
+theorem components_renumber (f : Nat → Nat) (hf : Inj f) (l : Link) :
+    components (renumber f l) = resMap (List.map (Path.ren f)) (components l) := components_renumber' f hf l
+
+/-- crossing signs — hence writhe and signed crossing numbers — are invariant under renumbering -/
+theorem crossingSigns_renumber (f : Nat → Nat) (hf : Inj f) (l : Link) :
+    crossingSigns (renumber f l) = crossingSigns l ∧
+    signedCrossingNums (renumber f l) = signedCrossingNums l ∧
+    writhe (renumber f l) = writhe l := by
+  have h := crossingSigns_renumber' f hf l
+  refine ⟨h, ?_, ?_⟩
+  · unfold signedCrossingNums; rw [h]
+  · unfold writhe signedCrossingNums; rw [h]
+
+example : Inj (fun x => 3 * x + 7) := by intro a b h; simp only at h; omega
 
 /-! ### F. resolution states
 
